@@ -3,8 +3,22 @@
 
 package cache
 
+import "sync/atomic"
+
 // deleteEntry removes the entry only if it is still the one that was inspected,
 // an entry that was replaced concurrently is left alone.
 func (c *syncMap) deleteEntry(key, entry interface{}) bool {
 	return c.data.CompareAndDelete(key, entry)
+}
+
+// expireEntry replaces the entry with an expired copy instead of changing it in place, so that
+// a cleanup that has inspected the previous state does not delete the renewed entry.
+// An entry that was replaced or removed concurrently is left alone.
+func (c *syncMap) expireEntry(key interface{}, entry *TraitEntry, expireAt int64) bool {
+	return c.data.CompareAndSwap(key, entry, &TraitEntry{
+		K: entry.K,
+		V: entry.V,
+		E: expireAt,
+		C: atomic.LoadInt64(&entry.C),
+	})
 }
